@@ -112,7 +112,7 @@ func (fx *FnCtx) doCallVals(st *State, fr *callFrame, site ssa.Instruction, cc *
 		return
 	}
 	con := fx.eng.CS.Funcs[key]
-	if con != nil && con.LockOnly {
+	if con != nil && (con.LockOnly || con.Inline) {
 		con = nil // a lock-sweep entry says nothing to callers: treat the callee as contract-less (inline / unknown code)
 	}
 	if con != nil {
